@@ -19,7 +19,8 @@
   (integration/fixes/rep-*.patch); the places are marked FIX.
 -/
 import NngModel.Proto.Base
-import NngModel.Generated.Consts
+import NngModel.Generated.Base
+import NngModel.Generated.C04REP
 namespace Nng.Rep
 open Nng Nng.Proto
 
